@@ -365,6 +365,11 @@ func (t *Template) new(name string) *Template {
 		nil,
 		t.nameSpace,
 	}
+	if t.nameSpace.escaped {
+		// Definitions are frozen once a template of the set has been executed:
+		// the new template is not associated with the set, so no output changes.
+		return tmpl
+	}
 	if existing, ok := tmpl.set[name]; ok {
 		emptyTmpl := New(existing.Name())
 		*existing = *emptyTmpl
